@@ -73,3 +73,18 @@ func ctlCacheParamGood(base, rel int, seen map[int][]byte) []byte {
 	}
 	return v
 }
+
+// ---- nohistory: a package-level "last result"
+
+var ctlLast struct {
+	key, val int
+	ok       bool
+}
+
+// must fire: the answer depends on the previous call
+func ctlNoHistoryBad(x int) int {
+	if !ctlLast.ok || x-ctlLast.key > 1 || ctlLast.key-x > 1 {
+		ctlLast.key, ctlLast.val, ctlLast.ok = x, x*x, true
+	}
+	return ctlLast.val
+}
